@@ -21,7 +21,7 @@ PIPE_RULE = "abstract cases (service configuration, Via/Route/Record-Route stack
 PROPS = {
     "C05": {"lean": ["C05"], "expected": ["K05", "Globals"], "also": ["C19"], "streams": [{"name": "rr", "gen": "rr"}, {"name": "res", "gen": "res"}],
             "rule": "exhaustive add/remove/dispatch sequences (canonical address order) plus seeded random histories on the real RoundRobinBackend; " + SIDE_NOTE},
-    "C18": {"lean": ["C18"], "expected": ["Routes", "K18", "Globals"], "streams": [{"name": "route", "gen": "route"}],
+    "C18": {"lean": ["C18"], "expected": ["Routes", "K18", "Globals"], "also": ["C03"], "streams": [{"name": "route", "gen": "route"}, {"name": "pipe", "gen": "pipe", "args": {"focus": "requests"}}],
             "rule": "exhaustive route tables over the pattern universe x all hosts, each lookup repeated 50 times, plus random larger tables; " + SIDE_NOTE},
     "C19": {"lean": ["C19"], "expected": ["K19", "Globals"], "streams": [{"name": "res", "gen": "res"}],
             "rule": "exhaustive and random resolution-outcome histories fed to addressResolved with real UDP/TCP backends; " + SIDE_NOTE},
@@ -32,8 +32,8 @@ PROPS = {
     "C01": {"lean": ["C01"], "expected": ["Tables", "Globals"], "also": ["C11"],
             "streams": [{"name": "pipe", "gen": "pipe"}, {"name": "frame", "gen": "frame", "args": {"focus": "frame"}}],
             "rule": PIPE_RULE},
-    "C02": {"lean": ["C02"], "expected": ["Tables", "K02", "Globals"], "streams": [{"name": "pipe", "gen": "pipe", "args": {"focus": "responses"}}, {"name": "pipe2", "gen": "pipe", "args": {"focus": "dialogs"}}],
-            "rule": PIPE_RULE},
+    "C02": {"lean": ["C02"], "expected": ["Tables", "K02", "Globals"], "streams": [{"name": "pipe", "gen": "pipe", "args": {"focus": "responses"}}, {"name": "pipe2", "gen": "pipe", "args": {"focus": "dialogs"}}, {"name": "cfg", "gen": "cfg", "args": {"focus": "hosts"}}, {"name": "wire", "gen": "wire", "args": {"focus": "c07"}}],
+            "also": ["C07"], "rule": PIPE_RULE},
     "C03": {"lean": ["C03"], "expected": ["Globals"], "streams": [{"name": "pipe", "gen": "pipe", "args": {"focus": "requests"}}],
             "rule": PIPE_RULE},
     "C04": {"lean": ["C04"], "expected": ["Globals"], "also": ["C15", "C07"],
@@ -45,7 +45,7 @@ PROPS = {
             "rule": PIPE_RULE},
     "C12": {"lean": ["C12"], "expected": ["K12", "Globals"], "streams": [{"name": "pipe", "gen": "pipe", "args": {"focus": "tcp"}}],
             "rule": PIPE_RULE},
-    "C13": {"lean": ["C13"], "expected": ["Globals"], "streams": [{"name": "pipe", "gen": "pipe", "args": {"focus": "requests"}}],
+    "C13": {"lean": ["C13"], "expected": ["Globals"], "streams": [{"name": "pipe", "gen": "pipe", "args": {"focus": "requests"}}, {"name": "cfg", "gen": "cfg", "args": {"focus": "keep"}}],
             "rule": PIPE_RULE},
     "C17": {"lean": ["C17"], "expected": ["Tables", "Wiring", "Globals"], "streams": [{"name": "pipe", "gen": "pipe", "args": {"focus": "twins"}}],
             "rule": PIPE_RULE},
